@@ -6,6 +6,7 @@ package main
 // be identical (C18).
 
 import (
+	"unicode/utf8"
 	"crypto/sha1"
 	"encoding/hex"
 	"bytes"
@@ -388,7 +389,8 @@ func injectCollision(r interface{ Intn(int) int }, p *proj.Project) {
 		}
 		key := lowerTarget
 		if r.Intn(2) == 0 {
-			key = strings.ToUpper(key[:1]) + key[1:]
+			_, n0 := utf8.DecodeRuneInString(key)
+			key = strings.ToUpper(key[:n0]) + key[n0:]
 		}
 		addAlias(p, key, oref)
 	case 2: // alias vs alias differing in case
